@@ -1,19 +1,151 @@
 /-
   C04 — a utility ranking is exactly the order of the utilities.
-  Property theorems only (helper lemmas live in Rdm/Lemmas).
+  Property theorems only (helper lemmas live in Rdm/Lemmas/Ranking*.lean).  Order facts are over `Rat`;
+  `ranking_ids_perm` holds for every number type.  None of the theorems about order and links needs
+  the ids to be distinct (entries that share id *and* value skip each other both in the code and in the
+  spec); distinctness is only needed to speak about "the" entry of an id (`reach`).
 -/
+import Mathlib.Logic.Relation
 import Rdm.Model.Ranking
 import Rdm.Spec.C04
+import Rdm.Lemmas.RankingBasic
+import Rdm.Lemmas.RankingOrder
+import Rdm.Lemmas.RankingLinks
+import Rdm.Lemmas.RankingRound
+import Rdm.Lemmas.RankingReach
 namespace Rdm.Props.C04
 open Rdm
 
 /-- the ranking is a permutation of its input ids (no entry lost or invented), for every number type -/
 theorem ranking_ids_perm {α : Type} [Num α] (l : List (Scored α)) :
     ((ranking l).map (·.id)).Perm (l.map (·.id)) := by
-  unfold ranking
-  simp only [List.map_map]
-  have h := List.mergeSort_perm (l.map fun s => ({ s with v := round8 s.v } : Scored α)) rankLe
-  have h2 := h.map (fun s : Scored α => s.id)
-  simpa [Function.comp_def] using h2
+  rw [ranking_eq, entriesOf_ids]
+  exact sorted_ids_perm l
+
+/-- every entry carries the rounded value of the input alternative with its id -/
+theorem ranking_values {α : Type} [Num α] (l : List (Scored α)) :
+    ∀ e ∈ ranking l, ∃ s ∈ l, e.id = s.id ∧ e.v = round8 s.v := by
+  intro e he
+  rw [ranking_eq] at he
+  obtain ⟨a, ha, rfl⟩ := List.mem_map.mp he
+  have ha' : a ∈ roundAll l := (List.mergeSort_perm _ _).mem_iff.mp ha
+  obtain ⟨s, hs, rfl⟩ := List.mem_map.mp ha'
+  exact ⟨s, hs, rfl, rfl⟩
+
+/-- clause 1: `result` is ordered by non-increasing value, equal values by ascending id -/
+theorem ranking_sorted (l : List (Scored Rat)) : Spec.C04.sortedOk (ranking l) = true := by
+  rw [ranking_eq]
+  exact sortedOk_of_pairwise _ (fun _ => ⟨rfl, rfl⟩) _ (mergeSort_rankLe_pairwise _)
+
+/-- clause 2, list form: an entry's links are exactly its peers (same value, other id) followed by all
+    entries holding the next lower distinct value, in ranking order -/
+theorem ranking_links_eq (l : List (Scored Rat)) :
+    ∀ e ∈ ranking l, e.links = Spec.C04.peers (ranking l) e ++ Spec.C04.nextLevel (ranking l) e := by
+  intro e he
+  rw [ranking_eq] at he ⊢
+  have hs := mergeSort_rankLe_pairwise (roundAll l)
+  generalize (roundAll l).mergeSort rankLe = sorted at hs he ⊢
+  unfold entriesOf at he ⊢
+  simp only [List.mem_map] at he
+  obtain ⟨a, _, rfl⟩ := he
+  have hg : Preserves (fun s : Scored Rat =>
+      ({ id := s.id, v := s.v, links := positionInRanking s sorted } : RankEntry Rat)) :=
+    fun s => ⟨rfl, rfl⟩
+  rw [spec_peers_map _ hg, spec_nextLevel_map _ hg _ (pairwise_desc_of_rankLe hs)]
+  exact positionInRanking_eq a sorted hs
+
+/-- clause 2, membership form: `x` is linked from `e` iff `x` is the id of an entry that either has the
+    same value and another id, or has a lower value with no entry strictly in between -/
+theorem ranking_links_mem (l : List (Scored Rat)) (e : RankEntry Rat) (he : e ∈ ranking l) (x : String) :
+    x ∈ e.links ↔ ∃ r ∈ ranking l, r.id = x ∧
+      ((r.id ≠ e.id ∧ r.v = e.v) ∨ (r.v < e.v ∧ ¬ ∃ y ∈ ranking l, r.v < y.v ∧ y.v < e.v)) := by
+  rw [ranking_eq] at he ⊢
+  have hs := mergeSort_rankLe_pairwise (roundAll l)
+  generalize (roundAll l).mergeSort rankLe = sorted at hs he ⊢
+  obtain ⟨a, ha, rfl⟩ := List.mem_map.mp he
+  simp only [mem_positionInRanking a sorted hs x, entriesOf, List.mem_map]
+  constructor
+  · rintro ⟨r, hr, rfl, hh⟩
+    refine ⟨_, ⟨r, hr, rfl⟩, rfl, ?_⟩
+    rcases hh with hh | ⟨h1, h2⟩
+    · exact Or.inl hh
+    · refine Or.inr ⟨h1, ?_⟩
+      rintro ⟨_, ⟨y, hy, rfl⟩, hy1, hy2⟩
+      exact h2 ⟨y, hy, hy1, hy2⟩
+  · rintro ⟨_, ⟨r, hr, rfl⟩, rfl, hh⟩
+    refine ⟨r, hr, rfl, ?_⟩
+    rcases hh with hh | ⟨h1, h2⟩
+    · exact Or.inl hh
+    · refine Or.inr ⟨h1, ?_⟩
+      rintro ⟨y, hy, hy1, hy2⟩
+      exact h2 ⟨_, ⟨y, hy, rfl⟩, hy1, hy2⟩
+
+/-- clause 2 through the executable checker -/
+theorem ranking_links (l : List (Scored Rat)) : Spec.C04.linksOk (ranking l) = true := by
+  unfold Spec.C04.linksOk
+  rw [List.all_eq_true]
+  intro e he
+  have := ranking_links_eq l e he
+  simp only [← this]
+  simp
+
+/-- clauses 1 + 2: the checker the driver evaluates on Go's output accepts the model's output for every
+    input list (any multiset of values, any ids) -/
+theorem ranking_check (l : List (Scored Rat)) : Spec.C04.check (ranking l) = true := by
+  unfold Spec.C04.check
+  rw [ranking_sorted, ranking_links]; rfl
+
+/-- clause 4: value, position and links of every alternative do not depend on the order in which the
+    alternatives are listed — the whole ranking is equal for permuted inputs -/
+theorem ranking_perm_invariant (l₁ l₂ : List (Scored Rat)) (h : l₁.Perm l₂) : ranking l₁ = ranking l₂ := by
+  rw [ranking_eq, ranking_eq]
+  have : (roundAll l₁).Perm (roundAll l₂) := h.map _
+  rw [mergeSort_rankLe_perm_eq this]
+
+/-- clause 3: following the links from an entry reaches precisely the alternatives whose value is not
+    higher than its own (reflexive-transitive closure of the link relation; ids distinct) -/
+theorem reach (l : List (Scored Rat)) (hnd : (l.map (·.id)).Nodup) (e : RankEntry Rat) (he : e ∈ ranking l)
+    (y : String) :
+    Relation.ReflTransGen (LinkStep (ranking l)) e.id y ↔ ∃ r ∈ ranking l, r.id = y ∧ r.v ≤ e.v := by
+  have hnd' : (((roundAll l).mergeSort rankLe).map (·.id)).Nodup := (sorted_ids_perm l).nodup_iff.mpr hnd
+  rw [ranking_eq] at he ⊢
+  have hs := mergeSort_rankLe_pairwise (roundAll l)
+  generalize (roundAll l).mergeSort rankLe = sorted at hs he hnd' ⊢
+  obtain ⟨a, ha, rfl⟩ := List.mem_map.mp he
+  constructor
+  · intro h
+    obtain ⟨r, hr, hid, hle⟩ := reach_le sorted hs hnd' _ _ h a ha rfl
+    exact ⟨_, List.mem_map.mpr ⟨r, hr, rfl⟩, hid, hle⟩
+  · rintro ⟨_, hr, rfl, hle⟩
+    obtain ⟨r, hr', rfl⟩ := List.mem_map.mp hr
+    exact le_reach sorted hs _ a ha (Nat.le_refl _) r hr' hle
+
+/-- the hypotheses of `reach` are satisfiable on a ranking with a tie and three levels
+    (b ↦ {a, c}, a ↦ {c, d}, c ↦ {a, d}, d ↦ ∅) -/
+example : let l : List (Scored Rat) := [⟨"a", 1⟩, ⟨"b", 2⟩, ⟨"c", 1⟩, ⟨"d", 0⟩]
+    ∀ e ∈ ranking l, ∀ y, Relation.ReflTransGen (LinkStep (ranking l)) e.id y ↔ ∃ r ∈ ranking l, r.id = y ∧ r.v ≤ e.v :=
+  fun e he y => reach _ (by decide) e he y
+
+/-- rounding: the extracted precision is 10^8 and `rounded()` moves a value by at most 5·10⁻⁹ -/
+theorem round8_close (x : Rat) :
+    (Num.ofConst Facts.roundPrecision : Rat) = 100000000 ∧ |round8 x - x| ≤ 1 / (2 * 10 ^ 8) :=
+  ⟨roundPrecision_rat, round8_error x⟩
+
+/-- rounding happens before any comparison: the ranking is computed from the rounded list alone, so two
+    alternatives whose values coincide after the 1e-8 rounding are peers (each links to the other) -/
+theorem rounding_before_comparison (l : List (Scored Rat)) :
+    ranking l = entriesOf ((roundAll l).mergeSort rankLe) ∧
+    ∀ a ∈ l, ∀ b ∈ l, a.id ≠ b.id → round8 a.v = round8 b.v →
+      ∃ e ∈ ranking l, e.id = a.id ∧ b.id ∈ e.links := by
+  refine ⟨ranking_eq l, ?_⟩
+  intro a ha b hb hid hv
+  have hs := mergeSort_rankLe_pairwise (roundAll l)
+  have ha' : ({ a with v := round8 a.v } : Scored Rat) ∈ (roundAll l).mergeSort rankLe :=
+    (List.mergeSort_perm _ _).mem_iff.mpr (List.mem_map.mpr ⟨a, ha, rfl⟩)
+  have hb' : ({ b with v := round8 b.v } : Scored Rat) ∈ (roundAll l).mergeSort rankLe :=
+    (List.mergeSort_perm _ _).mem_iff.mpr (List.mem_map.mpr ⟨b, hb, rfl⟩)
+  rw [ranking_eq]
+  refine ⟨_, List.mem_map.mpr ⟨_, ha', rfl⟩, rfl, ?_⟩
+  exact (mem_positionInRanking _ _ hs _).mpr ⟨_, hb', rfl, Or.inl ⟨fun e => hid e.symm, hv.symm⟩⟩
 
 end Rdm.Props.C04
